@@ -228,6 +228,36 @@ def build_corruptions():
                 d = {"deref": "Deref", "index": "Index", "into_iterator": "IntoIterator", "try_into": "TryInto", "is_variant": "IsVariant"}[a]
                 corr("params:bare-then-second", [d], "%s#[%s] #[%s]%s" % (pre, a, b, post))
                 corr("params:bare-then-second", [d], "%s#[%s] #[%s]%s" % (pre, b, a, post))
+        if not g:
+            # an argument that belongs to no documented form of the derive (another derive's vocabulary) is unknown in
+            # every position the derive reads attributes from
+            vocab = {"deref": "forward ignore", "deref_mut": "forward ignore", "index": "ignore", "index_mut": "ignore",
+                     "into_iterator": "owned ref ref_mut ignore", "is_variant": "ignore", "unwrap": "ignore owned ref ref_mut",
+                     "try_unwrap": "ignore owned ref ref_mut", "try_into": "ignore owned ref ref_mut", "error": "source backtrace ignore not",
+                     "mul": "forward", "mul_assign": "forward"}
+            allargs = ["forward", "ignore", "skip", "owned", "ref", "ref_mut", "source", "backtrace", "not(source)", "repr", "bound(T: Clone)",
+                       "rename_all = \"snake_case\"", "types(u8)", "transparent"]
+            shapes = {"deref": ("Deref", "struct"), "deref_mut": ("DerefMut", "struct"), "index": ("Index", "struct"), "index_mut": ("IndexMut", "struct"),
+                      "into_iterator": ("IntoIterator", "struct"), "is_variant": ("IsVariant", "enum"), "unwrap": ("Unwrap", "enum"),
+                      "try_unwrap": ("TryUnwrap", "enum"), "try_into": ("TryInto", "enum"), "error": ("Error", "both"), "mul": ("Mul", "struct1"),
+                      "mul_assign": ("MulAssign", "struct1")}
+            for at, (tr, shp) in shapes.items():
+                known = set(vocab[at].split())
+                for arg in allargs:
+                    if arg.split("(")[0].split(" ")[0] in known:
+                        continue
+                    a = "#[%s(%s)]" % (at, arg)
+                    if shp in ("struct", "both"):
+                        corr("params:foreign-arg", [tr], "%s pub struct S { a: Vec<u8>, b: u8 }" % a)
+                        corr("params:foreign-arg", [tr], "pub struct S { %s a: Vec<u8>, b: u8 }" % a)
+                    if shp == "struct1":
+                        corr("params:foreign-arg", [tr], "%s pub struct S(i32);" % a)
+                        corr("params:foreign-arg", [tr], "pub struct S(%s i32);" % a)
+                    if shp in ("enum", "both"):
+                        corr("params:foreign-arg", [tr], "%s pub enum E { A(i32), B(u8) }" % a)
+                        corr("params:foreign-arg", [tr], "pub enum E { %s A(i32), B(u8) }" % a)
+                        if at in ("try_into", "error"):
+                            corr("params:foreign-arg", [tr], "pub enum E { A(%s i32), B(u8) }" % a)
         corr("error:two-sources", ["Error"], "pub struct S%s { #[error(source)] a: %s, #[error(source)] b: i32 }" % (g, ty))
         corr("error:two-backtraces", ["Error"], "pub struct S%s { #[error(backtrace)] a: %s, #[error(backtrace)] b: i32 }" % (g, ty))
 
